@@ -52,9 +52,28 @@ fn pcg32_seed(mut state: u64) -> [u8; 32] {
     }
     seed
 }
+// 64-bit multiplication abstracted to an uninterpreted function (memo table): agreement for every interpretation of
+// wrapping_mul implies agreement for the real one; two bit-blasted copies of eight chained multipliers are out of reach.
+static mut MUL_ARGS: [(u64, u64, u64); 40] = [(0, 0, 0); 40];
+static mut MUL_N: usize = 0;
+fn mul_uf(a: u64, b: u64) -> u64 {
+    unsafe {
+        let mut i = 0;
+        while i < MUL_N {
+            if MUL_ARGS[i].0 == a && MUL_ARGS[i].1 == b { return MUL_ARGS[i].2; }
+            i += 1;
+        }
+        let r: u64 = kani::any();
+        assert!(MUL_N < 40);
+        MUL_ARGS[MUL_N] = (a, b, r);
+        MUL_N += 1;
+        r
+    }
+}
 #[kani::proof]
-#[kani::unwind(34)]
+#[kani::unwind(42)]
 #[kani::stub(Hc128Core::init, init_stub)]
+#[kani::stub(u64::wrapping_mul, mul_uf)]
 fn hc128_seed_from_u64_is_pcg32() {
     let x: u64 = kani::any();
     let r = Hc128Rng::seed_from_u64(x);
